@@ -135,8 +135,12 @@ impl Property for C11 {
             Err(e) => return CaseOut::fail("HARNESS-FAULT|C11-build".into(), e),
         };
         let initial_rsp = b.reg_read_64(SR::RSP).unwrap();
-        // where RSP stands when the stack is empty
-        let empty_rsp = initial_rsp + c.entry_frame.map_or(0, |n| 8 * (n as u64 + 3));
+        // where RSP stands when the stack is empty: the entry value for an init_stack stack. With an entry
+        // frame the stack is empty once the frame has been popped — how long the frame is (argc, pointers,
+        // nulls, possibly an auxiliary vector) is not this property's business, so a RET at or above the
+        // entry RSP gets no verdict on finishing; a RET below it (something is still pushed) is never
+        // the top-level one
+        let empty_rsp = initial_rsp;
         let mut k = 0u64; // successful steps
         let mut cause = "limit";
         let mut step_err = false;
@@ -184,7 +188,8 @@ impl Property for C11 {
                             return out;
                         }
                         // finish conditions
-                        let top_ret = i.mnemonic() == Mnemonic::Ret && rsp == empty_rsp;
+                        let open_ret = c.entry_frame.is_some() && i.mnemonic() == Mnemonic::Ret && rsp >= initial_rsp && !stopped_by_hook;
+                        let top_ret = i.mnemonic() == Mnemonic::Ret && if c.entry_frame.is_some() { open_ret && !cont } else { rsp == empty_rsp };
                         let expect_finish = after.rip == code_end || top_ret || stopped_by_hook;
                         if top_ret {
                             cause = "top-level-ret";
